@@ -16,18 +16,22 @@ def kill_matrix():
         return "(not generated yet)\n"
     rows = json.load(open(path))
     out = ["| seeded fault | repository's own suite | checks (quick tier) |", "|---|---|---|"]
-    tot = caught = suite_fail = 0
+    tot = caught = suite_fail = equiv = 0
     for r in rows:
         if "error" in r:
             out.append(f"| {r['name']} | - | ERROR {r['error']} |")
             continue
         names = {1: "caught", 2: "inconclusive", 0: "missed"}
         ck = ", ".join(f"{k}: {names.get(v['rc'], 'n/a')}" for k, v in r["checks"].items())
+        if r.get("equivalent"):
+            equiv += 1
+            out.append(f"| {r['name']} | {r.get('suite', '-')} | not a fault any more - {r['equivalent']} |")
+            continue
         tot += 1
         caught += any(v["rc"] == 1 for v in r["checks"].values())
         suite_fail += r.get("suite") == "FAIL"
         out.append(f"| {r['name']} | {r.get('suite', '-')} | {ck} |")
-    head = f"{tot} seeded faults; {caught} caught by at least one of the checks they were aimed at; the repository's own suite notices {suite_fail} of them.\n\n"
+    head = f"{tot} seeded faults (plus {equiv} former ones that a later repository fix made equivalent to the repaired tree); {caught} caught by at least one of the checks they were aimed at; the repository's own suite notices {suite_fail} of them.\n\n"
     return head + "\n".join(out) + "\n"
 
 
